@@ -516,6 +516,9 @@ func runC07(p *core.Prog, r *core.Report, tier string) {
 			var wit []ssa.Instruction
 			for _, lf := range core.PhiLeaves(data, ret) {
 				if core.IsNilConst(lf.V) {
+					if lf.Pred != nil && onlyWhenNeverClosedChannelIsClosed(f, lf.Pred) {
+						continue // `v, ok := <-ch; if !ok { v = nil }` on a channel nobody closes: the edge is never taken
+					}
 					w := core.Unguarded(ds, f, nil, func(x ssa.Instruction) bool { return x == ssa.Instruction(ret) }, core.NonNilGuard(ds, data))
 					if w != nil {
 						bad, wit = true, w
@@ -1674,4 +1677,97 @@ func counterValues(cs []ssa.Value, env map[ssa.Value]int64) []string {
 		out = append(out, fmt.Sprintf("%s=%d", name, env[c]))
 	}
 	return out
+}
+
+// onlyWhenNeverClosedChannelIsClosed: block b is reached only over the not-ok edge of a two-valued receive from a
+// channel that is made in f and closed nowhere in f or its literals.
+func onlyWhenNeverClosedChannelIsClosed(f *ssa.Function, b *ssa.BasicBlock) bool {
+	closed := map[*ssa.MakeChan]bool{}
+	for _, g := range core.WithClosures(f) {
+		core.EachInstr(g, func(in ssa.Instruction) {
+			ci, ok := in.(ssa.CallInstruction)
+			if !ok {
+				return
+			}
+			if bi, ok := ci.Common().Value.(*ssa.Builtin); ok && bi.Name() == "close" && len(ci.Common().Args) == 1 {
+				if mk := makeChanOf(ci.Common().Args[0]); mk != nil {
+					closed[mk] = true
+				} else {
+					closed[nil] = true // a close of something we cannot name: assume it may be ours
+				}
+			}
+		})
+	}
+	if closed[nil] {
+		return false
+	}
+	found := false
+	for _, blk := range f.Blocks {
+		if len(blk.Instrs) == 0 {
+			continue
+		}
+		iff, ok := blk.Instrs[len(blk.Instrs)-1].(*ssa.If)
+		if !ok || len(blk.Succs) != 2 {
+			continue
+		}
+		ex, ok := iff.Cond.(*ssa.Extract)
+		if !ok {
+			continue
+		}
+		var ch ssa.Value
+		switch t := ex.Tuple.(type) {
+		case *ssa.Select:
+			if ex.Index != 1 {
+				continue
+			}
+			// which arm is this test made on? the arm whose `index == k` test leads here
+			for _, d := range f.Blocks {
+				if len(d.Instrs) == 0 || len(d.Succs) != 2 {
+					continue
+				}
+				di, ok := d.Instrs[len(d.Instrs)-1].(*ssa.If)
+				if !ok {
+					continue
+				}
+				eq, ok := di.Cond.(*ssa.BinOp)
+				if !ok || eq.Op != token.EQL {
+					continue
+				}
+				ix, ok := eq.X.(*ssa.Extract)
+				if !ok || ix.Tuple != ssa.Value(t) || ix.Index != 0 {
+					continue
+				}
+				k, ok := eq.Y.(*ssa.Const)
+				if !ok || k.Value == nil {
+					continue
+				}
+				arm := int(k.Int64())
+				if arm < 0 || arm >= len(t.States) || t.States[arm].Dir != types.RecvOnly {
+					continue
+				}
+				if d.Succs[0] == blk || d.Succs[0].Dominates(blk) {
+					ch = t.States[arm].Chan
+				}
+			}
+			if ch == nil {
+				continue
+			}
+		case *ssa.UnOp:
+			if t.Op != token.ARROW || !t.CommaOk || ex.Index != 1 {
+				continue
+			}
+			ch = t.X
+		default:
+			continue
+		}
+		mk := makeChanOf(ch)
+		if mk == nil || mk.Parent() != f || closed[mk] {
+			continue
+		}
+		notOK := blk.Succs[1]
+		if len(notOK.Preds) == 1 && (notOK == b || notOK.Dominates(b)) {
+			found = true
+		}
+	}
+	return found
 }
